@@ -1,8 +1,7 @@
 CONSTANTS
-  MaxSteps = 2
-  MaxBudget = 2
+  MaxSteps = 1
   NIn = 2
-  Budgets <- MCBudgets
+  Budgets <- TBudgets
   FailOks <- MCFailOks
   Tools <- TTools
   InDom <- TInDom
@@ -17,6 +16,7 @@ CONSTANTS
   OutNs <- TOutNs
 INIT Init
 NEXT Next
+INVARIANT LawResIsEval
 INVARIANT LawTotal
 INVARIANT LawFlatIsFlattenedNest
 INVARIANT LawScatterSizes
